@@ -1500,11 +1500,24 @@ return 1;""",
             self.header_impl.add_statements_headers_PY(intent_blk)
 
             # Pass correct value to wrapped function.
+            # The wrapper's variable is not const.  When the function
+            # is overloaded in C++, keep the constness of a pointer
+            # argument so that an overload with a non-const pointer
+            # is not selected instead.
+            const_ptr_arg = (
+                self.language == "cxx" and node._cxx_overload and
+                arg.const and arg.is_pointer() == 1 and
+                not arg.is_reference() and
+                sgroup in ["native", "char"])
+            ncall = len(cxx_call_list)
             if intent_blk.arg_call:
                 for arg in intent_blk.arg_call:
                     append_format(cxx_call_list, arg, fmt_arg)
             else:
                 cxx_call_list.append(pass_var)
+            if const_ptr_arg and len(cxx_call_list) == ncall + 1:
+                cxx_call_list[-1] = "const_cast<const {} *>\t({})".format(
+                    arg_typemap.cxx_type, cxx_call_list[-1])
         # end for arg in args:
 
         # Implied argument initialization is added after the pre_call
